@@ -115,7 +115,8 @@ def run(check, mirror, tier):
            describe=lambda m, inputs: {k: model_value(m, x) for k, x in inputs.items()},
            prefer=lambda inp: z3.And(inp["year_floor"] >= 1000, inp["year_floor"] <= 9999, inp["month_floor"] >= -1000, inp["month_floor"] <= 1000,
                                      inp["day_floor"] >= -1000, inp["day_floor"] <= 1000))
-    subtraction_job(check, mirror, rb)
+    import checks.C15_timeline as tl
+    run_parallel(check, tl.jobs(check, mirror, rb, KNOWN_PRED))
 
 
 # ----------------------------------------------------------------------------- M: subtraction of date-and-time values with explicit offsets
